@@ -24,7 +24,7 @@ from ..costlib import layer_map
 from ..effects import Effect, Effects
 from ..model import AnalysisError, ClassInfo, FunctionInfo
 from ..sym import NONE, State, Term, mentions, show, subterms
-from ..util import (SELF, arg, bind_args, callee, guards_of, is_call, method_call, paths,
+from ..util import (SELF, arg, bind_args, callee, canon_torch, guards_of, is_call, method_call, paths,
                     returning, short, where)
 
 EXPLANATION = ('Argument-slot agreement of every super().__init__ call against the torch '
@@ -374,7 +374,7 @@ def r07d(ctx):
             for e in p.calls():
                 mc = method_call(e.data[0])
                 if mc and mc[1] == 'copy_' and mc[0][0] == 'attr' and mc[0][1] == lin:
-                    got[mc[0][2]] = mc[2][0]
+                    got[mc[0][2]] = canon_torch(mc[2][0])
         if set(got) != {'weight', 'bias'}:
             raise AnalysisError(f'{fn.qualname}: folded weight/bias stores not found')
         forms[name] = (fn, lin, bn, got)
@@ -396,9 +396,14 @@ def r07d(ctx):
         if okw:
             fac = wt[3] if wt[2] == w else wt[2]
             mc = method_call(fac)
-            okw = mc is not None and mc[1] in ('reshape', 'view') and \
-                poly.equal(mc[0], ('bin', '*', g, rs)) and \
-                mentions(mc[2], lambda x: x == ('const', -1))
+            if is_call(fac, 'torch.reshape') and len(fac[2]) >= 2:
+                base, shape = fac[2][0], fac[2][1:]
+            elif mc is not None and mc[1] in ('reshape', 'view'):
+                base, shape = mc[0], mc[2]
+            else:
+                base, shape = None, ()
+            okw = base is not None and poly.equal(base, ('bin', '*', g, rs)) and \
+                mentions(shape, lambda x: x == ('const', -1))
         ctx.ob('R07d', f'{name} BatchNorm folding: weight', okw,
                'w * (gamma * rsqrt(var + eps)) broadcast on the output-channel axis' if okw else
                f'folded weight is {short(wt, 200)}', where(fn))
